@@ -209,7 +209,7 @@ def gen(item, rng, tier):
             # checked for 'failing condition => no register, flag or memory change' and for the ITSTATE advance
             slots.append({'t': 'any', 'w': rand_dp32(rng), 'name': 'dp32'})
         elif t == 'multi':
-            kindm = rng.choice(['stm', 'ldm', 'ldrd', 'strd', 'nop', 'nopw'])      # (no PUSH/POP: another slot may load SP)
+            kindm = rng.choice(['stm', 'ldm', 'ldrd', 'strd', 'nop', 'nopw', 'msr_x', 'msr_x'])      # (no PUSH/POP: another slot may load SP)
             if kindm in ('stm', 'ldm'):
                 lst = rng.getrandbits(5) | rng.choice([1, 2, 3])
                 if bin(lst).count('1') < 2:
@@ -217,6 +217,9 @@ def gen(item, rng, tier):
                 w = T.ldstm_w(kindm == 'ldm', 6, lst, db=0, w=0)            # base r6 (data page), no write-back
             elif kindm in ('push', 'pop'):
                 w = (0xB400 if kindm == 'push' else 0xBC00) | (rng.getrandbits(5) | 1)
+            elif kindm == 'msr_x':
+                # MSR CPSR_x / CPSR_sx from a pointer register whose bits 15:10 are not zero: only an exception return may write the IT bits
+                w = 0xF3808000 | rng.choice([6, 7]) << 16 | rng.choice([2, 6]) << 8
             elif kindm in ('ldrd', 'strd'):
                 ra, rb = rng.sample(range(5), 2)
                 w = T.ldstd(kindm == 'ldrd', ra, rb, 6, rng.randrange(0, 16))
